@@ -239,14 +239,21 @@ def run(ctx):
         "decisions; every table is also compared action by action (text-table-comparisons)",
         "harness/setupsim.py tworld_field / model_line_text: directory and flavor of every product as the real "
         "findProduct reports them; Eups.setupType = exact and the implicit product name as shipped",
-        "the composed model runs with the dotted-numeric comparator of Model/Resolve.v (C10 models the real one); the "
-        "generated version names 1.0 2.0 3.0 9.9 and one-term expressions are inside that fragment",
+        "the composed model runs twice: with the dotted-numeric comparator of Model/Resolve.v on worlds whose version "
+        "names are 1.0 2.0 3.0 9.9 (composed-model-comparisons), and with the comparator and the matcher of C10 "
+        "(coq/Model/ResolveReal.v request_full_real, op fullv) on every world (real-comparator-comparisons), among them "
+        "the worlds of gen_world_versions: version names of C10's grammar (1.0.1 1.0+1 1.0-rc1 1.10 1.9 v1_2, spellings "
+        "of one key) and relational expressions with alternatives over them; the declarations reach the model in the "
+        "listing order of Database.findProducts (version names sorted as strings)",
         "harness/setupsim.py line_infos / model_line_full: encoding of processArgs results and product tags"]
     ctx.assumptions = ["one stack, one flavor, declared products only (no setup -r, no --force)",
                        "composed model: dependency lines of the forms name / name version / name version [expr] / "
                        "name [expr] / name relational-expression, with or without -j; no -t, --vro, -k on a line; the "
                        "shipped configuration (Generated/Config.v); closure_exact: conflict_free, no --max-depth, "
-                       "no --just, no -j line, no keep in the VRO, wf_db and a total order on the version names",
+                       "no --just, no -j line, no keep in the VRO, wf_db and a total order on the version names; "
+                       "closure_exact_real: the same with fw_real_ok (conventional names, per product no two spellings "
+                       "of one key) instead of the total order; closure_exact_real_sorted: fw_conv and db_sorted "
+                       "(conventional names, listings sorted as strings), the designation rule read in vcmp_sorted",
                        "WF2 of Proofs/SetupInv.v for the theorems (contributions of different names and versions apart, "
                        "acyclic dependency graph over names, single-word names and versions)"]
     ctx.check_theorems()
@@ -264,6 +271,13 @@ def run(ctx):
     textual = S.directed_text_scenarios() + [S.gen_scenario_text(ctx.rng) for _ in range(ctx.size(80, 1200))]
     for i in range(0, len(textual), 400):
         S.run_scenarios(ctx, textual[i:i + 400], oracle)
+
+
+    # worlds with version names of C10's grammar (1.0.1 1.0+1 1.0-rc1 1.10 1.9, spellings of one key) and relational
+    # expressions over them: the composed model with the real comparator (coq/Model/ResolveReal.v) decides every version
+    versions = S.directed_version_scenarios() + [S.gen_scenario_versions(ctx.rng, "plain") for _ in range(ctx.size(120, 1500))]
+    for i in range(0, len(versions), 400):
+        S.run_scenarios(ctx, versions[i:i + 400], oracle)
 
 
 def replay(ctx, path):
